@@ -1621,6 +1621,37 @@ def gen_access(repo):
         return '[' + '; '.join(out) + ']'
     G.define('gen_map_functions', '', 'list bool', map_functions,
              TF + ' / tensor/TensorMap.h: [squeeze; reshape; flatten] return their declared map type constructed from a.data() (the same storage, no copy); last entry: TensorMap::is_aligned() is the constant false')
+    # ---- simd_vector/simd_vector_{double,float}.h: which intrinsic every arithmetic operator of the floating SIMD types issues (C08)
+    def simd_fp_operators():
+        items = []
+        WC = {'sse': 1, 'avx': 2, 'avx512': 3, '128': 1, '256': 2, '512': 3, '_mm': 1, '_mm256': 2, '_mm512': 3}
+        STEM = {'add': 1, 'sub': 2, 'mul': 3, 'div': 4, 'neg': 5}
+        for ti, (fn, ty, suf) in enumerate([('simd_vector_double.h', 'double', 'pd'), ('simd_vector_float.h', 'float', 'ps')]):
+            txt = strip_comments(G.src('simd_vector/' + fn))
+            scopes = []
+            for m in re.finditer(r'struct\s+SIMDVector\s*<\s*' + ty + r'\s*,\s*simd_abi::(\w+)\s*>\s*\{', txt):
+                scopes.append((m.end() - 1, match_close(txt, m.end() - 1), m.group(1)))
+            n0 = len(items)
+            for m in re.finditer(r'operator\s*([-+*/])(=?)\s*\(([^)]*)\)\s*(?:const\s*)?\{', txt):
+                i = m.end() - 1; j = match_close(txt, i); body = txt[i + 1:j]
+                w = set(WC[x] for x in re.findall(r'simd_abi::(\w+)', m.group(3)) if x in WC) | set(WC[x] for x in re.findall(r'__m(128|256|512)', m.group(3)))
+                w |= set(WC[a] for (lo, hi, a) in scopes if lo < m.start() < hi and a in WC)
+                if len(w) != 1: raise XErr('%s: operator%s%s(%s): vector width of the overload not determined (%s)' % (fn, m.group(1), m.group(2), m.group(3).strip()[:40], sorted(w)))
+                ins = re.findall(r'\b(_mm(?:256|512)?)_(\w+?)_(\w+)\s*\(', body)
+                other = [x for x in re.findall(r'\b(_mm\w*)\s*\(', body) if not re.fullmatch(r'_mm(?:256|512)?_\w+?_\w+', x)]
+                if other: raise XErr('%s: operator%s%s: intrinsic %s' % (fn, m.group(1), m.group(2), other[0]))
+                main = [x for x in ins if x[1] != 'set1']
+                if len(main) > 1: raise XErr('%s: operator%s%s issues several arithmetic intrinsics: %s' % (fn, m.group(1), m.group(2), main))
+                if main and main[0][1] not in STEM: raise XErr('%s: operator%s%s issues %s' % (fn, m.group(1), m.group(2), '_'.join(main[0])))
+                iw = set(WC[x[0]] for x in ins)
+                if len(iw) > 1: raise XErr('%s: operator%s%s mixes vector widths' % (fn, m.group(1), m.group(2)))
+                items.append('(%d, %d, %s, %d, %d, %d, %s)' % (ti, OPS[m.group(1)], B(m.group(2) == '='), w.pop(), iw.pop() if iw else 0, STEM[main[0][1]] if main else 0, B(all(x[2] == suf for x in ins))))
+            if len(items) - n0 < 60: raise XErr('%s: only %d arithmetic operators found' % (fn, len(items) - n0))
+        return '[' + (';' + NL).join(items) + ']'
+    G.define('gen_simd_fp_operators', '', 'list (nat * nat * bool * nat * nat * nat * bool)', simd_fp_operators,
+             'simd_vector/simd_vector_{double,float}.h: every operator + - * / (member compound forms and free functions) of the sse / avx / avx512 vector types: '
+             '(0 double 1 float, operator 1 + 2 - 3 * 4 /, compound, vector width of the overload 1 sse 2 avx 3 avx512 (enclosing type or parameter types), width of the intrinsics it issues (0: none), '
+             'the one arithmetic intrinsic besides set1: 1 add 2 sub 3 mul 4 div 5 neg 0 none, every intrinsic carries the suffix of the element type pd / ps)')
     hdr = ('(** GENERATED by lib/cxx2v.py from the C++ source of /repo on every run -- do not edit.\n'
            '    Index expression of every operand / result access of the transpose and matmul kernels;\n'
            '    structure of the reductions and predicates of AbstractTensorFunctions.h. *)\n'
